@@ -11,6 +11,7 @@ import (
 	"github.com/zilliztech/milvus-cdc/core/config"
 	"github.com/zilliztech/milvus-cdc/core/log"
 	"github.com/zilliztech/milvus-cdc/core/util"
+	"github.com/zilliztech/milvus-cdc/server/maintenance"
 
 	"verifharness/fakes/etcdsrv"
 	"verifharness/stats"
@@ -25,6 +26,7 @@ func TestMain(m *testing.M) {
 	config.InitCommonConfig(func(c *config.CommonConfig) {
 		c.Retry = config.RetrySettings{RetryTimes: 2, InitBackOff: 1, MaxBackOff: 1}
 	})
+	maintenance.InitMsgLog() // CDCServer.Run does this before serving
 	stats.Main(func() int {
 		code := m.Run()
 		etcdsrv.Stop()
